@@ -322,7 +322,7 @@ def write_ndjson(path, rows):
 
 # ---------------- generic "recorded cases -> TLC trace spec" validation
 
-def validate_cases(ctx, module, cfg, recfile, sig, label, rerun=None, input_keys=None, observed_keys=None,
+def validate_cases(ctx, module, cfg, recfile, sig, label, rerun=None, sigv=None, input_keys=None, observed_keys=None,
                    nontrivial=None, timeout=1500, env=None, count_traces=True, workers=None):
     """Validate recorded cases (ndjson, one case per line) with a TLC trace spec whose states carry `ci`
     (1-based case index). Each violated case is re-run through the real code (rerun(case)->recorded case)
@@ -355,7 +355,7 @@ def validate_cases(ctx, module, cfg, recfile, sig, label, rerun=None, input_keys
         c = cases[ci - 1]
         inp = {k: c[k] for k in (input_keys or c.keys()) if k in c}
         rec = c
-        if rerun and len(seen) <= 25:
+        if rerun and len(seen) <= 6:
             one = ctx.path("one-%s-%d.ndjson" % (label, ci))
             rec = rerun(inp, one)
             write_ndjson(one, [rec])
@@ -365,6 +365,6 @@ def validate_cases(ctx, module, cfg, recfile, sig, label, rerun=None, input_keys
             if not r2.violations:
                 raise Infra("violation of case %d (%s) did not reproduce" % (ci, label))
         obs = {k: rec.get(k) for k in (observed_keys or [])} if observed_keys else None
-        ctx.fail(sig(c), case=inp, observed=obs,
+        ctx.fail(sigv(c, rec, v["name"]) if sigv else sig(c), case=inp, observed=obs,
                  detail="TLC %s %s violated in %s (%s)" % (v["kind"], v["name"], module, label))
     return r, cases
